@@ -322,6 +322,8 @@ def gen_consts():
     for nm, var in [("reParentheses", "PARENTHESES_PATTERN"), ("reNumeral", "NUMERAL_PATTERN"), ("reKeepToken", "KEEP_TOKEN_PATTERN")]:
         RX(nm, regex_of(dd.assign(var)), "dictionary.py " + var)
 
+    ldr = Src("dateparser/languages/loader.py")
+    emit("/-- loader.py _construct_locales: a language without the requested region falls back to the plain language (is not dropped) -/\ndef loaderFallsBack : Bool := " + lbool("_filter_valid_locales(" not in ast.unparse(ldr.func("_construct_locales"))))
     lc = Src("dateparser/languages/locale.py")
     RX("reNumeralPattern", regex_of(lc.assign("NUMERAL_PATTERN")), "locale.py NUMERAL_PATTERN")
     # translate_search: constants and the shape of the two-token look-ahead test
